@@ -171,6 +171,59 @@ def body_for(w, row: dict, role: str, values: dict):
     return "none", None, {}
 
 
+# ---------------------------------------------------------------------------
+# parameter overlays: what else a role can put into a request, built from what it can
+# legitimately obtain (its own account as its login JSON shows it, the JSON of objects it may
+# read).  Identifiers in the BODY are deliberately combined with other identifiers in the URL.
+
+OVERLAYS = ["minimal", "own-account", "other-ids", "full-target", "victim-ids"]
+
+
+def overlay_fields(w, row: dict, role: str, name: str, values: dict) -> tuple[dict, bool]:
+    """(fields, base_wins) – fields merged into the body and the query string; with
+    base_wins the body that makes the change succeed keeps its own values"""
+    s = w.sessions[role]
+    ids = w.ids
+    if name == "minimal":
+        return {}, False
+    if name == "own-account":
+        acc = s.account
+        if not acc:
+            return {}, False
+        groups = [g.upper() for g in acc.get("groups", [])]
+        f = {"username": acc.get("username"), "mustChange": False,
+             "userGroup": "USER" in groups, "mediaGroup": "MEDIA" in groups, "adminGroup": "ADMIN" in groups}
+        if acc.get("pk") is not None:
+            f.update({"pk": acc["pk"], "upk": acc["pk"], "id": acc["pk"], "user_pk": acc["pk"], "user": acc["pk"]})
+        return {k: v for k, v in f.items() if v is not None}, False
+    if name == "other-ids":
+        other = s.readable.get("other_stream", {})
+        f = {"pk": ids["bbb_spk"], "spk": ids["bbb_spk"], "stream": ids["bbb_spk"], "stream_pk": ids["bbb_spk"],
+             "id": ids["bbb_spk"], "directory": other.get("directory", "bbb"), "mps_name": ids["mps"]}
+        key = s.readable.get("key", {})
+        if key.get("pk") is not None:
+            f["kpk"] = key["pk"]
+        return f, False
+    if name == "full-target":
+        route = row["route"]
+        if route in ("api-edit-user", "api-list-users"):
+            # the body of the caller's own edit form (what the single page application sends)
+            f, _ = overlay_fields(w, row, role, "own-account", values)
+            f = dict(f)
+            if s.account.get("email"):
+                f["email_was"] = s.account["email"]
+            return f, True
+        if "mps" in route:
+            return dict(s.readable.get("mps", {})), True
+        if "key" in route:
+            return dict(s.readable.get("key", {})), True
+        return dict(s.readable.get("stream", {})), True
+    if name == "victim-ids":
+        return {"pk": ids["victim"], "upk": ids["victim"], "id": ids["victim"], "user_pk": ids["victim"],
+                "user": ids["victim"], "username": "c15victim"}, False
+    raise ValueError(name)
+
+
 def needs_refresh(row: dict) -> bool:
     return any(g["g"] == "jwt" and g["refresh"] for g in chain(row))
 
@@ -220,13 +273,22 @@ def tamper(tok: str) -> str:
     return urllib.parse.quote(raw[:i] + ch + raw[i + 1:])
 
 
-def execute(w, row: dict, role: str, flags: dict) -> dict:
+def execute(w, row: dict, role: str, flags: dict, overlay: str = "minimal") -> dict:
     """restore the snapshot, send the request, observe"""
     w.restore()
     s = w.sessions[role]
     values = url_values(w, row, role, flags["targetExists"], flags["targetIsSelf"])
     kind, payload, query = body_for(w, row, role, values)
     query = dict(query)
+    extra, base_wins = overlay_fields(w, row, role, overlay, values)
+    if extra:
+        if kind in ("form", "json", "multipart"):
+            payload = {**extra, **payload} if base_wins else {**payload, **extra}
+            if kind != "json":
+                payload = {k: (v if not isinstance(v, bool) else ("on" if v else "")) for k, v in payload.items()
+                           if v is not None}
+        q_extra = {k: v for k, v in extra.items() if v is not None and not isinstance(v, bool)}
+        query = {**q_extra, **query} if base_wins else {**query, **q_extra}
     svc = csrf_service(row)
     token = None
     if svc is not None and flags["csrfPresent"]:
@@ -268,6 +330,11 @@ def execute(w, row: dict, role: str, flags: dict) -> dict:
     resp = client.open(path, **kw)
     entered = code in w.hits
     changed = w.changes()
+    changed_users = w.changed_users() if "User" in changed else []
     desc = {"method": row["method"], "path": path, "query": {k: (v if k != "csrf_token" else "<token>") for k, v in query.items()},
             "body_kind": kind, "jwt": bool(headers), "session": flags["sendsSession"]}
-    return {"status": resp.status_code, "entered": entered, "changed": changed, "request": desc}
+    desc["overlay"] = overlay
+    if extra:
+        desc["overlay_fields"] = {k: extra[k] for k in sorted(extra)}
+    return {"status": resp.status_code, "entered": entered, "changed": changed,
+            "changed_users": changed_users, "request": desc}
